@@ -167,7 +167,17 @@ func main() {
 	for _, g := range globals {
 		require.RegisterNativeModule(g, mkLoader("global", g))
 	}
-	cores := []string{"buffer", "console", "process", "url", "util", "xcore", "node:xonly", "shared2", "cyca", "cycb", "selfy"}
+	cores := []string{"buffer", "console", "process", "url", "util", "xcore", "node:xonly", "shared2", "cyca", "cycb", "selfy", "flaky"}
+	// a loader that fails: it panics with a JavaScript value every time it runs (it must run at most once per runtime)
+	require.RegisterCoreModule("flaky", func(vm *goja.Runtime, module *goja.Object) {
+		kinds["core:flaky"]++
+		module.Get("exports").(*goja.Object).Set("__kind", "core:flaky")
+		v, err := vm.RunString("__thrown(77)")
+		if err != nil {
+			panic(err)
+		}
+		panic(v)
+	})
 	for _, c := range []string{"xcore", "node:xonly", "shared2"} {
 		require.RegisterCoreModule(c, mkLoader("core", c))
 	}
@@ -295,6 +305,17 @@ func main() {
 					files["/vr/app/"+nm+".js"] = jsmod(prog...)
 				}
 			}
+			// siblings that differ only in the suffix the probing adds (a.js next to a.json, b next to b.js): the one with the lower
+			// priority is sometimes required first, by its full name
+			var sibReqs []string
+			if r.Chance(40) {
+				files["/vr/app/a.json"] = fentry{kind: "json", valid: true, v: 5}
+				sibReqs = append(sibReqs, "./a.json", "/vr/app/a.json")
+			}
+			if r.Chance(25) {
+				files["/vr/app/b.js.js"] = jsmod(instr{op: "bump"}, instr{op: "set", k: 0, v: 3})
+				sibReqs = append(sibReqs, "./b.js.js")
+			}
 			files["/vr/app/e.json"] = fentry{kind: "json", valid: true, v: 7}
 			if r.Chance(50) {
 				files["/vr/app/bad.json"] = fentry{kind: "json", valid: false}
@@ -304,6 +325,10 @@ func main() {
 			pkgText["/vr/app/node_modules/lib/package.json"] = `{"main": "main.js"}`
 			files["/vr/app/node_modules/lib/main.js"] = jsmod(instr{op: "bump"}, instr{op: "req", req: "../../" + names[0], catch: true})
 			ncalls := 2 + r.Intn(5)
+			if len(sibReqs) > 0 && r.Chance(70) {
+				calls = append(calls, [3]string{"js", scriptDir, sibReqs[r.Intn(len(sibReqs))]})
+				calls = append(calls, [3]string{"js", scriptDir, r.Pick([]string{"./a", "./b.js", "/vr/app/a", "./x/../a"})})
+			}
 			for i := 0; i < ncalls; i++ {
 				kind := "js"
 				if r.Chance(30) {
@@ -449,7 +474,7 @@ func main() {
 				}
 			}
 			reqs := []string{"util", "node:util", "./util", "./util.js", "gnat", "rnat", "shared", "xcore", "node:xcore", "xonly", "node:xonly", "node:gnat", "node:nope", "plain", "./plain", "buffer", "node:buffer",
-				"shared2", "node:shared2", "dir/gsub", "dir/rsub", "./gnat", "node:rnat", "cyca", "node:cyca", "cycb", "node:cycb", "selfy", "node:selfy", "node:cyca"}
+				"shared2", "node:shared2", "dir/gsub", "dir/rsub", "./gnat", "node:rnat", "cyca", "node:cyca", "cycb", "node:cycb", "selfy", "node:selfy", "node:cyca", "flaky", "node:flaky", "flaky", "node:flaky"}
 			ncalls := 3 + r.Intn(7)
 			for i := 0; i < ncalls; i++ {
 				kind := "js"
@@ -495,6 +520,13 @@ func main() {
 			func() {
 				defer func() {
 					if x := recover(); x != nil {
+						// a native loader that panics with a JavaScript value: from JavaScript that is an exception; a Go caller of
+						// Require() gets the panic itself (there is no script frame to turn it into an error)
+						if v, isVal := x.(goja.Value); isVal && cl[0] == "go" {
+							payload, _ := errFn(goja.Undefined(), v)
+							logPush(cl[2], payload)
+							return
+						}
 						crashed = fmt.Sprint(x)
 					}
 				}()
@@ -650,7 +682,7 @@ func main() {
 		for _, k := range rk {
 			runsCoq = append(runsCoq, fmt.Sprintf("(%s, %d%%nat)", lib.ZsStr(k), kinds[k]))
 		}
-		coq := fmt.Sprintf("{| c_fs := %s; c_nat := {| n_registry := %s; n_global := %s; n_core := %s; n_loader_reqs := %s |}; c_calls := %s; c_events := %s; c_files := %s; c_evcounts := %s; c_counters := %s; c_loader_log := %s; c_native_runs := %s |}",
+		coq := fmt.Sprintf("{| c_fs := %s; c_nat := {| n_registry := %s; n_global := %s; n_core := %s; n_loader_reqs := %s; n_loader_throws := [[102;108;97;107;121]] |}; c_calls := %s; c_events := %s; c_files := %s; c_evcounts := %s; c_counters := %s; c_loader_log := %s; c_native_runs := %s |}",
 			lib.List(fsCoq), zl(regNat), zl(globals), zl(cores), loaderReqsCoq, lib.List(callsCoq), lib.List(evCoq), lib.List(evFiles), lib.List(evCounts), lib.List(cntCoq), lib.List(logCoq), lib.List(runsCoq))
 		nontriv := len(files) >= 2
 		out.Add(coq, map[string]interface{}{"files": paths, "registry_natives": regNat, "calls": calls, "events": descEv, "counters": counts, "loader_calls": len(loaderLog)}, nontriv)
